@@ -56,6 +56,15 @@ CLAIMED["C20"] = dict(
     note="Trusted in addition: x86-64 SysV layout rules as modelled in Ffi.lean; real memory safety of the unsafe writes beyond the byte-level contract, OS RNG and Instant::now() are outside the model; machines are deterministic so the API's OS-seeded RNG cannot matter.",
 )
 
+CLAIMED["C01"] = dict(
+    text="Proof (Lean 4), for every validated machine set, fractions, oracle and history with arbitrary batches, unknown/huge ids and arbitrary (also backwards) clocks: "
+         "no index is ever out of range, the transition recursion needs at most 6 of its 8 fuel units (CounterZero guard), every reached state is valid; the only fault the "
+         "model can raise is the checked Duration addition of the blocking accounting, shown reachable by a kernel-evaluated witness that panics the real code too (known finding F6). "
+         "Monitor on the implementation: no panic, transition steps per call <= 6(events+1)(machines+1). The work bound itself is checked by the monitor, not yet by a theorem.",
+    ref="5 (C01)",
+    technique="Lean 4: safety induction over the mutually recursive transition/update_counter with a fuel measure + bounded call-level walker; differential correspondence incl. panic class; monitor for the work bound",
+)
+
 PENDING = {}
 
 ALL = [f"C{i:02d}" for i in range(1, 21)]
